@@ -1,3 +1,4 @@
+import RossModel.Lemmas.SourceTie
 import RossModel.Lemmas.Protocol
 /-!
 # C16 — Sending routes a packet to local handlers or to the link, as addressed
@@ -27,5 +28,9 @@ theorem C16_sendPacket_spec (s : Proto) (p : Packet) :
     (p.addr ≠ s.addr →
         callsOf (s.sendPacket p).1.log = callsOf s.log ∧ txOf (s.sendPacket p).1.log = txOf s.log ++ [p]) :=
   Ross.sendPacket_spec s p
+
+/-! ### tie to the source text (constants regenerated from /repo by `bin/extract` on every run) -/
+/-- `BROADCAST_ADDRESS` in `src/protocol.rs` is the model's -/
+theorem C16_src_broadcast : SrcTie.broadcastOk = true := by decide
 
 end Ross.Props
